@@ -596,8 +596,8 @@ def correspondence(ctx):
     per = 4 if ctx.quick else 40
     skipped = 0
     for fam, gen in zoo.GENERATORS.items():
-        for _ in range(per):
-            case = gen(ctx.nprng)
+        for kk in range(per * (5 if fam == "eigensolve_sparse" else 3 if fam in ("soe", "staticcond") else 2 if fam in ("complex", "aggregation") else 1)):
+            case = zoo.generate(fam, ctx.nprng, kk + 3 * (ctx.seed % 4))
             r = call_impl(zoo.adjoint_oracle, case, ctx.nprng, 2, True)
             ctx.evaluations += 1
             ctx.branch("adjoint." + fam)
